@@ -35,12 +35,13 @@ func run(r *evid.Run) {
 		"distinct non-trivial = distinct such tuples whose image contains at least one import or WKT. " +
 		"B/C: one case = (out configuration, probe file name, entry kind, content); distinct = (configuration, kind, structural class of the name, outcome stage). " +
 		"C inputs: one case = one `buf generate` invocation over 2-3 template inputs = a history of per-input generation runs (out configuration, probe name, which step produces / inserts into the probed file, which plugin). " +
-		"C requests: one case = (module [with unused imports], input kind {directory, binary image}, target subset, ordered list of 2-4 plugin configs - pairs with different grouping keys and groups of plugins that share the key (strategy, type filters) but differ in include_imports/include_wkt/opt/out - , command-line override). " +
+		"C requests: one case = (module [with unused imports], input kind {directory, binary image}, target subset, template version {v2, v1}, ordered list of 2-4 plugin configs, each a plugin binary or a protoc built-in plugin (name x compiler version x way the compiler is found) - pairs with different grouping keys and groups of plugins that share the key (strategy, type filters) but differ in include_imports/include_wkt/opt/out - , command-line override). " +
 		"All spaces are enumerated completely, nothing is sampled.")
 	r.Assume("the protoc plugin itself is trusted to be any program: only what buf sends to it and what buf does with its response is judged")
 	r.Assume("out locations are plain directories or .zip/.jar files below one base directory; symlinked or case-folded spellings of one directory are out of scope")
 	r.Assume("under a per-plugin type filter only the filter-independent clauses are demanded (no duplicates, nothing unrequested, files that keep a type are generated, closure, order, source options stripped); which files a filter keeps is C12's subject")
 	r.Assume("remote plugins (BSR code generation service) are out of scope: offline")
+	r.Assume("protoc built-in plugins: the compiler is a recording stand-in (no protoc in the sandbox); judged is what buf hands to it (descriptor set, files to generate, parameter, generator name) and where buf puts the files it wrote, not protoc's own derivation of the runtime view")
 
 	scratch, err := os.MkdirTemp("", "verif-c17-")
 	if err != nil {
@@ -67,6 +68,20 @@ func run(r *evid.Run) {
 		bin, binErr = buildPlugin(scratch)
 		if binErr != nil {
 			r.Incomplete("harness: half C skipped: " + binErr.Error())
+		} else {
+			// round 4: the same binary is the compiler `protoc` of the protoc built-in plugins (it plays protoc when it
+			// is started with arguments). buf finds a compiler without protoc_path through exec.LookPath, i.e. through the
+			// PATH of this process: a directory holding only the link `protoc` is put in front for the duration of the run.
+			pathDir := filepath.Join(scratch, "path")
+			if err := os.MkdirAll(pathDir, 0o755); err == nil {
+				err = os.Symlink(bin, filepath.Join(pathDir, "protoc"))
+				if err != nil {
+					r.Incomplete("harness: cannot link the fake compiler: " + err.Error())
+				}
+			}
+			oldPath := os.Getenv("PATH")
+			_ = os.Setenv("PATH", pathDir+string(os.PathListSeparator)+oldPath)
+			defer os.Setenv("PATH", oldPath)
 		}
 	}
 
